@@ -49,6 +49,22 @@
         std::mem::forget(m);
     }
 
+    /// C06: a later caller for the same key joins the leader's fetch (it waits, it does not start a second fetch), and
+    /// whoever finishes the fetch gets every waiter back.
+    #[kani::proof]
+    #[kani::unwind(3)]
+    fn later_caller_joins_the_leaders_fetch() {
+        let mut m = VM::new();
+        let hash: u64 = kani::any();
+        let key: u8 = kani::any();
+        let l = lead(&mut m, hash, &key);
+        assert!(l.is_some(), "[first_caller_leads]");
+        assert!(is_wait(&mut m, hash, &key), "[later_caller_of_the_same_key_waits_instead_of_fetching]");
+        let t = len_and_forget(m.take(hash, &key, None));
+        assert!(t == Some(2), "[take_returns_every_waiter]");
+        std::mem::forget((m, l));
+    }
+
     /// id-guarded take (error / drop paths): a stale leader cannot take a newer registration.
     #[kani::proof]
     #[kani::unwind(3)]
